@@ -78,6 +78,11 @@ def _write_fits(regions, filename, header=None, overwrite=False):
                        ('HDUDOC', hdudoc),
                        ('CONTENT', 'REGION'),
                        ('ORIGIN', 'astropy/regions')])
+    else:
+        # the reader looks the region table up by its extension name
+        header = fits.Header(header)
+        if 'EXTNAME' not in header:
+            header['EXTNAME'] = 'REGION'
 
     bin_table = fits.BinTableHDU(data=output, header=header)
     bin_table.writeto(filename, overwrite=overwrite)
